@@ -1,4 +1,4 @@
-CONSTANTS N = 2  Calls <- C2  Kinds <- KRR  Steps <- S30  MaxSend = 3  Reconn <- RBoth  Overlap = TRUE  KeepAlive = FALSE  PingNeutral = FALSE  Faults = FALSE
+CONSTANTS N = 2  Calls <- C2  Kinds <- KRR  Steps <- S30  MaxSend = 3  Reconn <- RBoth  Overlap = TRUE  KeepAlive = FALSE  PingNeutral = FALSE  Faults = FALSE  Reg0 <- AllEps  Answers <- NoAnswers  Stale = FALSE
 SPECIFICATION Spec
 CONSTRAINT SendBound
 INVARIANTS TypeOK RotationIsHealthy ProbeQueueSingle CallsGoSomewhere
